@@ -477,6 +477,28 @@ pub struct SenderIn<'a> {
     pub ikm_e: &'a [u8],
 }
 
+/// Encap / AuthEncap with an explicitly chosen ephemeral private key (RFC 9180 leaves the way skE is
+/// produced to the sender; any valid private key gives a message the receiver must accept)
+pub fn encap_with_sk(kem: KemId, pk_r: &[u8], sk_e: &[u8], auth: Option<(&[u8], &[u8])>) -> Option<(Vec<u8>, Vec<u8>)> {
+    let enc = pk_of(kem, sk_e)?;
+    let mut dh_ = dh(kem, sk_e, pk_r)?;
+    let mut kem_context = enc.clone();
+    kem_context.extend_from_slice(pk_r);
+    if let Some((sk_s, pk_s)) = auth {
+        dh_.extend_from_slice(&dh(kem, sk_s, pk_r)?);
+        kem_context.extend_from_slice(pk_s);
+    }
+    Some((extract_and_expand(kem, &dh_, &kem_context), enc))
+}
+
+/// SetupS with an explicitly chosen ephemeral private key
+pub fn setup_s_with_sk(i: &SenderIn, sk_e: &[u8]) -> Option<(Vec<u8>, KeySched)> {
+    let auth = if i.mode & 2 != 0 { Some((i.sk_s, i.pk_s)) } else { None };
+    let (ss, enc) = encap_with_sk(i.suite.kem, i.pk_r, sk_e, auth)?;
+    let (psk, psk_id): (&[u8], &[u8]) = if i.mode & 1 != 0 { (i.psk, i.psk_id) } else { (b"", b"") };
+    Some((enc, key_schedule(i.suite, i.mode, &ss, i.info, psk, psk_id)))
+}
+
 /// SetupBaseS / SetupPSKS / SetupAuthS / SetupAuthPSKS
 pub fn setup_s(i: &SenderIn) -> Option<(Vec<u8>, KeySched)> {
     let (ss, enc) = if i.mode & 2 != 0 {
